@@ -114,10 +114,12 @@ check(
           "straddles a frame boundary, or any alteration / truncation / oversize case, or a non-empty payload."),
     quick=[unit("codec", "^TestC05(EveryLength|Streams|EndOfStream|Oversize|BlockOver)", checks=2000, timeout=900),
            unit("codec", "^TestC05Alterations", checks=120, timeout=900),
-           unit("client", "^TestC05ClientCorruptedFrame", checks=1500, timeout=900)],
+           unit("client", "^TestC05ClientCorruptedFrame", checks=1500, timeout=900),
+           unit("client", "^TestC05ClientProducedFrames", checks=400, timeout=900)],
     thorough=[unit("codec", "^TestC05(EveryLength|Streams|EndOfStream|Oversize|BlockOver)", checks=20000, timeout=6000, shards=6),
               unit("codec", "^TestC05Alterations", checks=2500, timeout=6000, shards=8),
-              unit("client", "^TestC05ClientCorruptedFrame", checks=30000, timeout=6000, shards=2)],
+              unit("client", "^TestC05ClientCorruptedFrame", checks=30000, timeout=6000, shards=2),
+              unit("client", "^TestC05ClientProducedFrames", checks=6000, timeout=6000, shards=4)],
     manifest=dict(
         text="Fault enumeration: every single-byte alteration (every offset x 4 masks) of generated frame streams, every "
              "payload length up to a bound for every method and level, with a reference frame codec built directly on "
